@@ -279,3 +279,83 @@ Section Session.
     rewrite file_blob_save, zlib_roundtrip. cbn [bind]. apply pickle_roundtrip.
   Qed.
 End Session.
+
+(* ---------- any alteration of the header (any number of bytes, any values) ---------- *)
+Lemma le_decode_inj l1 : forall l2, length l1 = length l2 -> bytes_ok l1 -> bytes_ok l2 ->
+  le_decode l1 = le_decode l2 -> l1 = l2.
+Proof.
+  induction l1 as [|a l1 IH]; intros [|b l2] Hlen H1 H2 E; try discriminate; [reflexivity|].
+  inversion H1 as [|a0 r0 Ha Hr1]; subst. inversion H2 as [|b0 r1 Hb Hr2]; subst.
+  unfold byte_ok in Ha, Hb. cbn [le_decode] in E. simpl in Hlen.
+  assert (Hab : a = b) by lia. assert (Ed : le_decode l1 = le_decode l2) by lia.
+  subst b. f_equal. apply IH; try assumption. lia.
+Qed.
+
+Lemma skipn_skipn' {A} x : forall y (l : list A), skipn x (skipn y l) = skipn (x + y) l.
+Proof.
+  intros y; revert x; induction y as [|y IH]; intros x l.
+  - rewrite Nat.add_0_r. reflexivity.
+  - destruct l as [|a l]; [rewrite !skipn_nil; reflexivity|].
+    replace (x + S y)%nat with (S (x + y)) by lia. cbn [skipn]. apply IH.
+Qed.
+
+Lemma chunks_eq n : forall h h' : list Z, length h = (4 * n)%nat -> length h' = (4 * n)%nat ->
+  (forall k, (k < n)%nat -> firstn 4 (skipn (4 * k) h) = firstn 4 (skipn (4 * k) h')) -> h = h'.
+Proof.
+  induction n as [|n IH]; intros h h' Hl Hl' Hc.
+  - destruct h, h'; simpl in *; try lia. reflexivity.
+  - rewrite <- (firstn_skipn 4 h), <- (firstn_skipn 4 h'). f_equal.
+    + exact (Hc O ltac:(lia)).
+    + apply IH.
+      * rewrite skipn_length. lia.
+      * rewrite skipn_length. lia.
+      * intros k Hk. rewrite !skipn_skipn'.
+        replace (4 * k + 4)%nat with (4 * S k)%nat by lia. apply Hc. lia.
+Qed.
+
+Lemma field_eq_chunk k h h' : bytes_ok h -> bytes_ok h' ->
+  (4 * k + 4 <= length h)%nat -> (4 * k + 4 <= length h')%nat ->
+  field k h = field k h' -> firstn 4 (skipn (4 * k) h) = firstn 4 (skipn (4 * k) h').
+Proof.
+  intros Hb Hb' Hl Hl' E. unfold field in E. apply le_decode_inj; try exact E.
+  - rewrite !firstn_length, !skipn_length. lia.
+  - apply bytes_ok_firstn, bytes_ok_skipn, Hb.
+  - apply bytes_ok_firstn, bytes_ok_skipn, Hb'.
+Qed.
+
+Lemma header_matches_same_header c f f' : bytes_ok f -> bytes_ok f' ->
+  (24 <= length f)%nat -> (24 <= length f')%nat ->
+  header_matches c (field 0 (file_header f)) (field 1 (file_header f)) (field 2 (file_header f))
+    (field 3 (file_header f)) (field 4 (file_header f)) (field 5 (file_header f)) ->
+  header_matches c (field 0 (file_header f')) (field 1 (file_header f')) (field 2 (file_header f'))
+    (field 3 (file_header f')) (field 4 (file_header f')) (field 5 (file_header f')) ->
+  file_header f = file_header f'.
+Proof.
+  intros Hb Hb' Hl Hl' (M0 & M1 & M2 & M3 & M4 & M5) (N0 & N1 & N2 & N3 & N4 & N5).
+  assert (L : length (file_header f) = (4 * 6)%nat)
+    by (unfold file_header; rewrite firstn_length, header_len_24; lia).
+  assert (L' : length (file_header f') = (4 * 6)%nat)
+    by (unfold file_header; rewrite firstn_length, header_len_24; lia).
+  assert (B : bytes_ok (file_header f)) by (apply bytes_ok_firstn, Hb).
+  assert (B' : bytes_ok (file_header f')) by (apply bytes_ok_firstn, Hb').
+  apply (chunks_eq 6 _ _ L L'). intros k Hk.
+  apply field_eq_chunk; try assumption; try lia.
+  assert (Hk6 : (k = 0 \/ k = 1 \/ k = 2 \/ k = 3 \/ k = 4 \/ k = 5)%nat) by lia.
+  destruct Hk6 as [->|[->|[->|[->|[->| ->]]]]]; congruence.
+Qed.
+
+(* a file that differs from an accepted file only inside the 24 header bytes - in any number of bytes, by any
+   values - is rejected *)
+Theorem header_tamper_rejected f f' : bytes_ok f -> bytes_ok f' -> load_check f = Ok tt ->
+  length f' = length f -> file_blob f' = file_blob f -> f' <> f ->
+  load_check f' = Host host_ValueError.
+Proof.
+  intros Hb Hb' Hok Hlen Hblob Hne.
+  destruct (load_check_ok_inv f Hok) as [Hl M].
+  apply load_check_not_ok_rejected; [lia|].
+  intros Hok'. destruct (load_check_ok_inv f' Hok') as [Hl' N].
+  rewrite Hblob in N.
+  pose proof (header_matches_same_header _ f f' Hb Hb' Hl Hl' M N) as Hh.
+  apply Hne. unfold file_header, file_blob in *.
+  rewrite <- (firstn_skipn header_len f'), <- (firstn_skipn header_len f). congruence.
+Qed.
